@@ -106,6 +106,16 @@ def gen_uamiv(rng, maxdim=4, maxsteps=3):
                 with_etflag=with_etflag, tstep=tstep, data=data)
 
 
+def end_of_day(c):
+    """end flags at midnight spelt the CAMx way: hour 24 of the day that ends"""
+    import datetime as dt
+    for i, (d_, t_) in enumerate(c['etflag']):
+        if t_ == 0:
+            prev = dt.datetime.strptime('%07d' % d_, '%Y%j') - dt.timedelta(days=1)
+            c['etflag'][i] = [int(prev.strftime('%Y%j')), 240000]
+    return c
+
+
 def gen_uamiv_at(rng, y, j, h, with_etflag=False, tstep=1):
     """a random gridded file whose first step begins at year y, day j, hour h"""
     import datetime as dt
@@ -252,7 +262,11 @@ def build_uamiv_file(c):
     if c['with_etflag']:
         ef = f.createVariable('ETFLAG', 'i', ('TSTEP', 'VAR', 'DATE-TIME'))
         ef[:] = np.array(c['etflag'], dtype='i')[:, None, :].repeat(nspec, 1)
-    for si, s in enumerate(c['species']):
+    # the variables may have been created in another order than VAR-LIST names them (a file put together by hand, a species
+    # replaced later): VAR-LIST says what the species order of the output is
+    order = c.get('varorder') or list(range(nspec))
+    for si in order:
+        s = c['species'][si]
         v = f.createVariable(s, c.get('vdtype', 'f'), ('TSTEP', 'LAY', 'ROW', 'COL'))
         bits = np.array([[c['data'][t][si][z] for z in range(c['nz'])] for t in range(nt)], dtype='>u4')
         v[:] = bits.view('>f4').reshape(nt, c['nz'], c['ny'], c['nx'])      # float32 -> float64 is exact
